@@ -19,7 +19,7 @@ import ast
 import re
 from dataclasses import dataclass, field
 
-from . import AnalysisError
+from . import AnalysisError, ModelViolation
 from .summary import summarize
 
 PARSER = "pymbolic.parser"
@@ -58,6 +58,7 @@ class ParserTable:
     prefix: dict                # tag -> (op, operand_prec)   op: "pos"|"neg"|Cls|"paren"|"bracket"|"colon"|"wildcard"
     terminals: dict             # tag -> kind
     tagvars: dict               # module variable name -> tag string
+    prefix_bare_slice: tuple = (None,)   # children of the Slice for a lone ':'
     module: object = None
     # prefix tag -> tags of literal tokens read by parse_terminal directly
     prefix_terminal_if: dict = field(default_factory=dict)
@@ -196,6 +197,31 @@ def _wrap(body, params, ret):
 LEFT = ("param", "left_exp")
 
 
+def _bare_slice(vals, where):
+    """the children pattern of the Slice built when nothing follows a colon:
+    a tuple of "L" (the left operand) and None entries, read from the one
+    returned value that is a Slice literal"""
+    pats = set()
+    for v in vals:
+        if isinstance(v, tuple) and v[0] == "call" and \
+                v[1].split(".")[-1] == "Slice" and len(v[2]) == 1 and \
+                v[2][0][0] == "lit" and v[2][0][1] == "tuple":
+            pat = []
+            for x in v[2][0][2]:
+                if x == LEFT:
+                    pat.append("L")
+                elif x == ("const", None):
+                    pat.append(None)
+                else:
+                    raise AnalysisError(f"{where}: slice built from {x} when "
+                                        "nothing follows the colon")
+            pats.add(tuple(pat))
+    if len(pats) != 1:
+        raise AnalysisError(f"{where}: expected one Slice literal for a colon "
+                            f"with nothing after it, found {sorted(pats, key=str)}")
+    return pats.pop()
+
+
 def _is_parse_call(v):
     return isinstance(v, tuple) and v and v[0] == "call" \
         and v[1] == "self.parse_expression"
@@ -255,7 +281,138 @@ def _extract_postfix(model, P, table):
         table.postfix.append(br)
 
 
+def _recognise_chain(tags, guard, gop, body, params, table):
+    """A comparison branch that reads a whole chain  a < b <= c ...  in a loop
+    and builds the conjunction of its links.  Recognised piecewise:
+      * one `while` whose test requires the next token to be a comparison,
+      * its body (analysed as a function of the running left operand): looks
+        the operator up by the *current* token, advances, parses the right
+        operand, appends Comparison(left, op, right) to one list and makes the
+        right operand the next link's left operand,
+      * after the loop the result is the only link, or the node that the
+        closing expression builds over all links in order.
+    -> Branch, or None if the branch has no such loop."""
+    loops = [st for st in body if isinstance(st, ast.While)]
+    if not loops:
+        return None
+    if len(loops) != 1 or any(isinstance(x, (ast.While, ast.For))
+                              for st in loops[0].body for x in ast.walk(st)):
+        raise AnalysisError("comparison branch: more than one loop")
+    w = loops[0]
+    i = body.index(w)
+    pre, post = body[:i], body[i + 1:]
+    if w.orelse:
+        raise AnalysisError("comparison branch: while/else")
+    # the loop test: (not at end) and next_tag() in the comparison table
+    tests = w.test.values if isinstance(w.test, ast.BoolOp) and isinstance(
+        w.test.op, ast.And) else [w.test]
+    member = [t for t in tests if isinstance(t, ast.Compare)
+              and isinstance(t.ops[0], ast.In)
+              and ast.unparse(t.comparators[0]) == "self._COMP_TABLE"
+              and ast.unparse(t.left) == "pstate.next_tag()"]
+    others = [t for t in tests if t not in member]
+    if len(member) != 1 or any(ast.unparse(t) != "not pstate.is_at_end()"
+                               for t in others):
+        raise AnalysisError("comparison branch: loop test not understood: "
+                            + ast.unparse(w.test))
+    # names: the list of links is the one local the loop appends to
+    lists = {c.func.value.id for st in w.body for c in ast.walk(st)
+             if isinstance(c, ast.Call) and isinstance(c.func, ast.Attribute)
+             and c.func.attr == "append" and isinstance(c.func.value, ast.Name)}
+    if len(lists) != 1:
+        raise AnalysisError("comparison branch: expected one list of links")
+    L = lists.pop()
+    inits = [st for st in pre if isinstance(st, ast.Assign)
+             and isinstance(st.targets[0], ast.Name) and st.targets[0].id == L]
+    if len(inits) != 1 or not (isinstance(inits[0].value, ast.List)
+                               and not inits[0].value.elts):
+        raise AnalysisError("comparison branch: the list of links does not "
+                            "start empty")
+    for st in pre:
+        if st is inits[0] or isinstance(st, (ast.Import, ast.ImportFrom)):
+            continue
+        raise AnalysisError("comparison branch: statement before the loop not "
+                            "understood: " + ast.unparse(st))
+    # ---- the loop body, as a function of (left_exp, links) ----
+    fn = _wrap(w.body, [*params, L], "left_exp")
+    pss = [ps for ps in summarize(fn, node_param=False) if ps.term == "return"]
+    if len(pss) != 1:
+        raise AnalysisError("comparison branch: the loop body branches")
+    ps = pss[0]
+    calls = [e for e in ps.events if e.kind in ("call", "selfcall")]
+    names = [e.name for e in calls]
+    if "pstate.advance" not in names or names.count("parse_expression") != 1:
+        raise AnalysisError("comparison branch: the loop body does not advance "
+                            "and parse exactly one operand")
+    # the operator is looked up before the token is consumed
+    adv = names.index("pstate.advance")
+    tag_reads = [i for i, n in enumerate(names) if n == "pstate.next_tag"]
+    where = f"pymbolic/parser.py:{w.lineno}"
+    if not tag_reads or max(tag_reads) > adv:
+        raise ModelViolation(
+            "T/parser/comparison-chain/operator-token", where,
+            "the comparison operator is looked up after the token has been "
+            "consumed: the look-up sees the first token of the right operand")
+    right = ps.retval                     # left_exp after the body
+    if right == LEFT:
+        raise ModelViolation(
+            "T/parser/comparison-chain/links-share-operand", where,
+            "the right operand of a link does not become the left operand of "
+            "the next: 'a < b < c' is read as (a < b) and (a < c)")
+    if not _is_parse_call(right):
+        raise AnalysisError("comparison branch: the right operand does not "
+                            "become the next link's left operand")
+    rp = _parse_prec(right)
+    link = ps.env.get(L)
+    OP = ("index", ("self", "_COMP_TABLE"), None,
+          ("call", "pstate.next_tag", (), ()))
+    ok = (isinstance(link, tuple) and link[0] == "extend"
+          and link[1] == ("param", L) and link[2][0] == "call"
+          and _clsname(link[2][1]) == "Comparison")
+    if ok:
+        a = link[2][2]
+        opv = a[1] if len(a) == 3 else None
+        if len(a) == 3 and a[0] == right and a[2] == LEFT:
+            raise ModelViolation(
+                "T/parser/comparison-chain/operand-order", where,
+                "a link is built as Comparison(right, op, left): the operands "
+                "of every comparison are swapped")
+        ok = len(a) == 3 and a[0] == LEFT and a[2] == right and \
+            isinstance(opv, tuple) and opv[0] == "index" and \
+            opv[1] == ("self", "_COMP_TABLE") and "next_tag" in str(opv[3])
+    if not ok:
+        raise AnalysisError("comparison branch: a link is not Comparison(left, "
+                            "table[token], right) appended to the list: "
+                            f"{link}")
+    # ---- after the loop ----
+    fn2 = _wrap(post, [*params, L], "left_exp")
+    pss2 = [ps for ps in summarize(fn2, node_param=False) if ps.term == "return"]
+    if len(pss2) != 1 or pss2[0].env.get("did_something") != ("const", True):
+        raise AnalysisError("comparison branch: closing statements not "
+                            "understood / did_something not set")
+    res = pss2[0].retval
+    LL = ("param", L)
+    joined = None
+    if isinstance(res, tuple) and res[0] == "ifexp" and len(res) == 4:
+        cond = getattr(res[1], "val", None)
+        one = ("compare", ("Eq",), ("len", LL), (("const", 1),))
+        single, many = (res[2], res[3]) if cond == one else (None, None)
+        if single == ("index", LL, 0) and isinstance(many, tuple) and \
+                many[0] == "call" and many[2] in ((("copy", LL),), (LL,)):
+            joined = _clsname(many[1])
+    if joined not in NARY:
+        raise AnalysisError("comparison branch: the result is not 'the only "
+                            "link, else <n-ary node>(all links)': "
+                            f"{res}")
+    return Branch(tags, guard, gop, "INFIX", "Comparison", rp, "COMP",
+                  extra={"chain": joined})
+
+
 def _recognise_postfix(tags, guard, gop, body, params, table):
+    if tags == tuple(table.comp_table):
+        br = _recognise_chain(tags, guard, gop, body, params, table)
+        if br is not None:
+            return br
     wrapped = _wrap(body, params, "left_exp")
     pss = [ps for ps in summarize(wrapped, node_param=False)
            if ps.term == "return"]
@@ -339,7 +496,8 @@ def _recognise_postfix(tags, guard, gop, body, params, table):
         precs = {_parse_prec(ast_call_value(e)) for es in parse_calls_per_path
                  for e in es}
         return Branch(tags, guard, gop, "COLON", "Slice",
-                      right_prec=precs.pop() if len(precs) == 1 else None)
+                      right_prec=precs.pop() if len(precs) == 1 else None,
+                      extra={"bare": _bare_slice(vals, "postfix colon")})
     if tag == "comma":
         precs = {_parse_prec(ast_call_value(e)) for es in parse_calls_per_path
                  for e in es}
@@ -495,6 +653,8 @@ def _extract_prefix(model, P, table):
         if tag == "colon":
             table.prefix[tag] = ("colon", "_PREC_SLICE" if "_PREC_SLICE" in src
                                  else None)
+            table.prefix_bare_slice = _bare_slice(
+                [ps.retval for ps in pss], "prefix colon")
             continue
         if tag in ("openpar", "openbracket"):
             close = "_closepar" if tag == "openpar" else "_closebracket"
@@ -746,7 +906,7 @@ class ModelParser:
                 nxt = self.expression(self.t.prec(prec))
             except ModelParseError:
                 self.pos = save
-                return ("Slice", (None,))
+                return ("Slice", tuple(self.t.prefix_bare_slice))
             return _join_slice(None, nxt)
         if op == "wildcard":
             self.pos += 1
@@ -793,6 +953,16 @@ class ModelParser:
 
     def apply(self, br, tag, left):
         t = self.t
+        if br.shape == "INFIX" and br.build == "COMP" and br.extra.get("chain"):
+            links = []
+            while not self.at_end() and self.tag() in t.comp_table:
+                op = t.comp_table[self.tag()]
+                self.pos += 1
+                right = self.expression(t.prec(br.right_prec))
+                links.append(("Comparison", left, op, right))
+                left = right
+            return links[0] if len(links) == 1 else (br.extra["chain"],
+                                                     tuple(links))
         if br.shape == "INFIX":
             self.pos += 1
             right = self.expression(t.prec(br.right_prec))
@@ -854,7 +1024,8 @@ class ModelParser:
                 nxt = self.expression(t.prec(br.right_prec))
             except ModelParseError:
                 self.pos = save
-                return ("Slice", (left, None))
+                return ("Slice", tuple(left if x == "L" else None
+                                       for x in br.extra["bare"]))
             return _join_slice(left, nxt)
         if br.shape == "COMMA":
             self.pos += 1
